@@ -250,7 +250,7 @@ def run(ctx, consts, jobs):
         # a stream that does not say how long it is ("unknown-size": AU data size 0xffffffff) has no defined end inside a larger file and no
         # defined frame count on a pipe (the library refuses the first and reports SF_COUNT_MAX-derived frames for the second, by design)
         open_ended = "unknown-size" in c["tag"]
-        routes = ["vio", "path", "fd0", "fd1"] + (["fdemb:37:9"] if f.major in C.WHITELIST and not open_ended else [])
+        routes = ["vio", "path", "fd0", "fd1"] + (["fdemb:37:9", "fdemb:4096:100"] if f.major in C.WHITELIST and not open_ended else [])
         c["routes"] = routes
         for r in routes:
             scripts.append(("f|%d|%s" % (n, r), C.read_script(f, j["ch"], j["frames"], c["hex"], r)))
